@@ -305,14 +305,17 @@ static std::string run(const Case& k, vf::Ctx& ctx) {
                     // => P' lies on the segment between the values for m_lo and m_hi
                     V3 Plo = Pb + (Fb - Pb * (cdamp / mlo)) * dt, Phi = Pb + (Fb - Pb * (cdamp / mhi)) * dt;
                     V3 seg = Phi - Plo;
-                    ld tpp = 32 * EPS * (Pb.norm() + (Fb.norm() + Pb.norm() * cdamp / mlo) * dt) + 1e-300;
+                    // rounding scales with the individual momenta (they may cancel in the pair total when the model does not equalise them)
+                    const ld pmag2 = b.p.norm() + b2.p.norm() + p.norm() + p2.norm();
+                    ld tpp = 32 * EPS * (pmag2 + (b.f.norm() + b2.f.norm() + pmag2 * cdamp / mlo) * dt) + 1e-300;
                     ld s = seg.n2() > 0 ? (Pa - Plo).dot(seg) / seg.n2() : 0;
                     s = std::max((ld)0, std::min((ld)1, s));
                     if ((Pa - (Plo + seg * s)).norm() > tpp) {
                         os << "step " << step << ": coupled pair (" << ci << "," << ni << ")-(" << cj << "," << nj << ") total momentum ("
                            << (double)Pa.x << "," << (double)Pa.y << "," << (double)Pa.z << ") is not P + (F1+F2 - c P/m) dt for any m between the two node masses; "
                            << "P=(" << (double)Pb.x << "," << (double)Pb.y << "," << (double)Pb.z << ") F=(" << (double)Fb.x << "," << (double)Fb.y << ","
-                           << (double)Fb.z << ")";
+                           << (double)Fb.z << ") m1=" << (double)m << " m2=" << (double)m2 << " c=" << (double)cdamp << " dt=" << (double)dt << " s=" << (double)s
+                           << " dist=" << (double)(Pa - (Plo + seg * s)).norm() << " tol=" << (double)tpp;
                         return os.str();
                     }
                     // displacement = (updated pair momentum / 2) dt / m_eff, m_eff in the same bracket
